@@ -89,6 +89,25 @@ func TestC04_Homomorphism(t *testing.T) {
 		if pk := aggSk.PublicKey(); !pk.Equals(aggPk) || !aggPk.Equals(pk) || !bytes.Equal(pk.Encode(), wantPk) {
 			g.Fatalf("public key of the aggregated private key (%x) differs from the aggregated public key (%x)", pk.Encode(), aggPk.Encode())
 		}
+		{
+			// history independence: fresh private key objects, a generated subset of which has already been asked for its
+			// public key (lazily computed and cached), aggregate to a key with the same scalar and the same public key
+			cold := make([]crypto.PrivateKey, n)
+			for i := range xs {
+				cold[i] = decodeSK(g, xs[i])
+			}
+			warmKeys(g, "warm", cold)
+			aggCold, err := crypto.AggregateBLSPrivateKeys(cold)
+			if err != nil {
+				g.Fatalf("AggregateBLSPrivateKeys: %v", err)
+			}
+			if !bytes.Equal(aggCold.Encode(), wantSk) || !bytes.Equal(aggCold.PublicKey().Encode(), wantPk) || !aggCold.PublicKey().Equals(aggPk) {
+				g.Fatalf("aggregating %d private keys of which some had their public key cached: Encode %x (want %x), PublicKey %x (want %x)", n, aggCold.Encode(), wantSk, aggCold.PublicKey().Encode(), wantPk)
+			}
+			if !aggCold.Equals(aggSk) || !aggSk.Equals(aggCold) {
+				g.Fatalf("two aggregations of the same scalars are not Equal")
+			}
+		}
 		aggSig, err := crypto.AggregateBLSSignatures(sigs)
 		if err != nil {
 			g.Fatalf("AggregateBLSSignatures: %v", err)
